@@ -296,7 +296,13 @@ def request_for(shape):
             rearr.append([binding(0, old[src], name=["w", 600 + i]), var(p + src)])
             kinds2.append(old[src])
         stmt = {"k": "substitute", "rearrange": rearr, "next": call("k")}
-        return ctx, types_for(), stmt, dict(kinds=kinds, kinds2=kinds2)
+        # the code of a substitution must not depend on what the variables' types declare: alternate between types with
+        # only nullary xtors and types with fields (a back end that consults the declaration shows up in either half)
+        if (p + len(mp) + len(old)) % 2 == 0:
+            tys = types_for()
+        else:
+            tys = types_for(xtors_T=[("K0", []), ("K1", ['ext', 'prd'])], xtors_U=[("D0", ['ext']), ("D1", [])])
+        return ctx, tys, stmt, dict(kinds=kinds, kinds2=kinds2)
     raise ValueError(k)
 
 
